@@ -334,6 +334,26 @@ pub fn check(spec: &PropSpec, tier: Tier, seed: i64) -> i32 {
         e.3 |= r.capped;
         e.5 += r.wall_s;
     }
+    // a hang reported by a worker's watchdog is confirmed like every other violation: the recorded
+    // prefix is replayed in a fresh process under the same watchdog; a stall that does not come
+    // back (the machine, not the job) is noted and dropped
+    let mut unconfirmed_stalls = 0usize;
+    violations.retain(|v| {
+        if v.sig != "hang" {
+            return true;
+        }
+        let tmp = std::env::temp_dir().join(format!("nv-hang-{}-{}.json", std::process::id(), unconfirmed_stalls));
+        let doc = json!({"property": spec.id, "tier": tier.name(), "scenario": v.scenario, "order": v.order, "choices": v.choices, "sig": v.sig, "message": v.message});
+        let _ = std::fs::write(&tmp, serde_json::to_string(&doc).unwrap());
+        let out = Command::new(&exe).args(["replay", tmp.to_str().unwrap()]).stderr(Stdio::null()).output();
+        let _ = std::fs::remove_file(&tmp);
+        let confirmed = matches!(&out, Ok(o) if o.status.code() == Some(1) && String::from_utf8_lossy(&o.stdout).contains("replay: hang"));
+        if !confirmed {
+            unconfirmed_stalls += 1;
+            eprintln!("  note: {} :: a stall of a worker did not reproduce on replay (machine load); dropped", v.scenario);
+        }
+        confirmed
+    });
     // distinct observations per scenario are not kept apart across shards; report the global set
     let findings = load_findings();
     let mut known_seen: Vec<&Finding> = vec![];
